@@ -160,7 +160,7 @@ def expect_event(t, root, tree, opts):
         elif it["ty"] == "link":
             e["traw"] = it["t"].hex()
         items.append(e)
-    if opts.get("wdir"):
+    if opts.get("wdir") and items:         # (the w= directory comes into being with the first entry extracted into it)
         parts = opts["wdir"].split("/")
         for k in range(1, len(parts) + 1):
             items.append({"loc": base + EG.loc_of("/".join(parts[:k])), "ty": "dir", "size": 0, "crc": 0, "mtime": [-1], "mode": 0o755, "traw": ""})
@@ -289,6 +289,64 @@ def policy_pass(rng, sc, tier, ev):
     return out
 
 
+def prompt_pass(rng, sc, tier, ev):
+    """every sequence of answers (y, n, a, s, an empty line, an unrecognised line; upper case too) of up to 3 (thorough: 4)
+    lines at the overwrite prompt, for an archive of four files that are all present already: the files replaced must be
+    exactly those TreeModel!Ask says (no strace here: only the final tree is compared)"""
+    import itertools
+    lha = V.lha_binary("plain")
+    t = Tree(random.Random(7), tier)
+    for nm, data in ((b"f1", b"new one"), (b"f2", b"new two!"), (b"d/f3", b"new three"), (b"f4", b"4")):
+        if nm == b"d/f3":
+            t.members.append(arc.unix_dir(b"d", level=1, perms=0o40755, time=1000000000))
+            t.items.append({"p": b"d", "ty": "dir", "mtime": 1000000000, "mode": 0o755})
+        t.members.append(arc.unix_file(nm, data, level=2, method=b"-lh0-", payload=data, perms=0o100644, time=1234567890))
+        t.items.append({"p": nm, "ty": "file", "data": data, "mtime": 1234567890, "mode": 0o644})
+    a = os.path.join(sc, "prompt.lzh")
+    open(a, "wb").write(arc.archive(t.members))
+    alphabet = [b"y", b"n", b"a", b"s", b"", b"x", b"Y", b"S"]
+    seqs = [()]
+    for L in range(1, (3 if tier == "quick" else 4) + 1):
+        seqs += list(itertools.product(alphabet if L < 3 or tier != "quick" else alphabet[:6], repeat=L))
+    runs = []
+
+    def one(k):
+        seq = seqs[k]
+        lines = list(seq) + [b"n"] * 5            # (enough answers: end of input at the prompt ends the tool)
+        rd = os.path.join(sc, "pr_%d" % k)
+        os.makedirs(os.path.join(rd, "d"))
+        pre = []
+        for rel in ("f1", "f2", "d/f3", "f4"):
+            open(os.path.join(rd, rel), "wb").write(b"old " + rel.encode())
+            os.chmod(os.path.join(rd, rel), 0o644)
+            pre.append((rel, "file", b"old " + rel.encode(), 0o644))
+        p = subprocess.run([lha, "x", a], capture_output=True, cwd=rd, env=V.run_env(), input=b"".join(x + b"\n" for x in lines), timeout=120)
+        if p.returncode not in (0, 1):
+            raise V.HarnessError("lha x at the prompt exited %s: %s" % (p.returncode, p.stderr.decode(errors="replace")[-300:]))
+        tree = EG.walk_tree(rd)
+        e = model_event(t, tree, [], [], pre, bytes((x + b"\n")[0] for x in lines))
+        shutil.rmtree(rd, ignore_errors=True)
+        return [{"e": "Reset", "cwd": EG.loc_of(rd), "root": EG.loc_of(rd), "pre": [], "mode": "extract", "case": "prompt-" + b",".join(seq).decode()}, e]
+    with cf.ThreadPoolExecutor(max_workers=V.NCPU) as ex:
+        evs = list(ex.map(one, range(len(seqs))))
+    out = []
+    nsh = V.NCPU
+    for k in range(nsh):
+        tr = os.path.join(sc, "prompt_expect_%d.ndjson" % k)
+        sub = evs[k::nsh]
+        with open(tr, "w") as f:
+            for pair in sub:
+                for e in pair:
+                    f.write(json.dumps(e, separators=(",", ":")) + "\n")
+
+        class P: returncode = 0; stderr = b""
+        if sub:
+            out.append((tr, tr, len(sub), P()))
+    ev.set("prompt_answer_sequences_exhaustive", len(seqs))
+    ev.cls(("prompt-exhaustive", len(seqs)))
+    return out
+
+
 def run(tier, seed, ev):
     rng = random.Random(seed)
     sc = V.scratch("c06")
@@ -342,13 +400,14 @@ def run(tier, seed, ev):
     with cf.ThreadPoolExecutor(max_workers=V.NCPU) as ex:
         results = [r for r in ex.map(one, range(V.NCPU)) if r[2] > 0]
     results += policy_pass(rng, sc, tier, ev)
+    results += prompt_pass(rng, sc, tier, ev)
     viols, good = TR.validate_all("Trace_Extract", "Trace_Extract", results, ev, "C06", xmx="4g")
     # members from MacLHA archives: envelope recognition, what is handed out, verdict (MacBinary.tla)
     import maccommon
     viols += maccommon.run("C06", tier, seed, ev)
     # the print command: banner + exactly the selected members' contents (Cli.tla)
     import clicommon as CL
-    viols += CL.run("C06", tier, seed, ev, 12 if tier == "quick" else 200, modes=("p",))
+    viols += CL.run("C06", tier, seed, ev, 12 if tier == "quick" else 200, modes=("p",), globs=True)
     ev.add("traces_validated_against_impl", good)
     ev.set("extractions", len(cases))
     for (i, t, opt, mc) in cases:
